@@ -119,6 +119,8 @@ type libCase struct {
 	style, eol string
 	finalNL    bool
 	rep        int
+	long       int // index into longVars of an over-long comment line, -1 for none
+	at         int // the long line goes before key line at (at == n: after the last)
 }
 
 var eolModes = []string{"lf", "crlf", "mixed"}
@@ -135,7 +137,7 @@ func libPart(r *mon.Run) {
 				for _, eol := range eolModes {
 					for _, fin := range []bool{true, false} {
 						for rep := 0; rep < r.Pick(2, 8); rep++ {
-							cases = append(cases, libCase{fn, n, -1, "", st, eol, fin, rep})
+							cases = append(cases, libCase{fn, n, -1, "", st, eol, fin, rep, -1, 0})
 						}
 					}
 				}
@@ -149,15 +151,37 @@ func libPart(r *mon.Run) {
 							if r.Thorough() {
 								for _, st := range styles {
 									for rep := 0; rep < 4; rep++ {
-										cases = append(cases, libCase{fn, n, pos, kind, st, eol, fin, rep})
+										cases = append(cases, libCase{fn, n, pos, kind, st, eol, fin, rep, -1, 0})
 									}
 								}
 							} else {
 								// three styles per cell, rotating so that every style meets every kind
 								for rep := 0; rep < 3; rep++ {
 									st := styles[(n+pos+ki+ei+fi+2*rep)%len(styles)]
-									cases = append(cases, libCase{fn, n, pos, kind, st, eol, fin, rep})
+									cases = append(cases, libCase{fn, n, pos, kind, st, eol, fin, rep, -1, 0})
 								}
+							}
+						}
+					}
+				}
+			}
+		}
+		// over-long comment lines: alone among valid keys (all keys still
+		// returned, in order; a key inside the comment is not), and before a
+		// corrupted key (the reported line number is still the true one)
+		longKinds := []string{"subst-data", "trunc1", "lead-space", "hrp-swap", "flip-all", "insert-1"}
+		li, kc := 0, 0
+		for lv := range longVars {
+			for n := 1; n <= r.Pick(3, 5); n++ {
+				for at := 0; at <= n; at++ {
+					for rep := 0; rep < r.Pick(1, 3); rep++ {
+						li++
+						cases = append(cases, libCase{fn, n, -1, "", styles[li%len(styles)], eolModes[li%3], li%2 == 0, rep, lv, at})
+						for pos := 0; pos < n; pos++ {
+							for k := 0; k < r.Pick(2, len(longKinds)); k++ {
+								li++
+								kc++
+								cases = append(cases, libCase{fn, n, pos, longKinds[kc%len(longKinds)], styles[li%len(styles)], eolModes[(li/2)%3], li%2 == 0, rep, lv, at})
 							}
 						}
 					}
@@ -170,6 +194,9 @@ func libPart(r *mon.Run) {
 	mon.Par(len(cases), func(i int) {
 		c := cases[i]
 		name := fmt.Sprintf("lib/%s/n%d/p%d/%s/%s/%s/%v/%d", c.fn, c.n, c.pos, c.kind, c.style, c.eol, c.finalNL, c.rep)
+		if c.long >= 0 {
+			name += fmt.Sprintf("/%s@%d", longVars[c.long].Name, c.at)
+		}
 		viol := func(key, what string, replay any) { col.add(i, key, what, replay) }
 		r.Guard(name, func() { runLib(r, pool, c, name, viol) })
 	})
@@ -218,7 +245,17 @@ func runLib(r *mon.Run, pool []*pkey, c libCase, name string, violate func(key, 
 		}
 		kl = append(kl, l)
 	}
-	f := assemble(rng, kl, c.style, c.eol, c.finalNL, id)
+	layout := kl
+	if c.long >= 0 {
+		ghost := newX("c18-ghost") // a valid key that occurs only inside a comment
+		embed := ghost.Pub
+		if id {
+			embed = ghost.Sec
+		}
+		lv := longVars[c.long]
+		layout = insertLine(kl, c.at, fline{Text: longComment(rng, lv, embed), Long: lv.Name})
+	}
+	f := assemble(rng, layout, c.style, c.eol, c.finalNL, id)
 	data := f.Bytes()
 
 	classify := classifyLibRecipient
@@ -286,6 +323,16 @@ func runLib(r *mon.Run, pool []*pkey, c libCase, name string, violate func(key, 
 	r.Tab("lib_final_newline", fmt.Sprint(c.finalNL))
 	r.Tab("lib_style", c.style)
 	r.Tab("lib_reader", []string{"whole", "one-byte", "data+EOF", "half"}[rd])
+	if c.long >= 0 {
+		what := "valid keys only"
+		if c.pos >= 0 {
+			what = "before the corrupted key"
+			if c.at > c.pos {
+				what = "after the corrupted key"
+			}
+		}
+		r.Tab("lib_long_comment", c.fn+" "+longVars[c.long].Name+" "+what)
+	}
 	if c.pos >= 0 {
 		r.Tab("lib_corruption_kind", c.fn+":"+c.kind)
 		r.Tab("lib_corrupted_position", fmt.Sprintf("%d of %d", c.pos+1, c.n))
@@ -306,7 +353,7 @@ func runLib(r *mon.Run, pool []*pkey, c libCase, name string, violate func(key, 
 	}
 	replay := map[string]any{"function": c.fn, "file": string(data), "reader": rd, "case": name}
 	pre := "lib:" + c.fn + ":"
-	where := fmt.Sprintf("%s on %q (%s)", c.fn, data, f.describe())
+	where := fmt.Sprintf("%s on %s (%s)", c.fn, showFile(data), f.describe())
 
 	if err != nil {
 		msg := err.Error()
@@ -337,14 +384,14 @@ func runLib(r *mon.Run, pool []*pkey, c libCase, name string, violate func(key, 
 		if !named {
 			violate(pre+"line-number", fmt.Sprintf("%s: error %q does not name the offending line %v", where, err.Error(), v.BadLines), replay)
 		}
-		r.SampleN("lib-bad-"+c.fn, 2, map[string]any{"function": c.fn, "file": string(data), "offending_line": v.BadLines[0], "kind": c.kind, "error": err.Error()})
+		r.SampleN("lib-bad-"+c.fn+sampleClass(c.long), 2, map[string]any{"function": c.fn, "file": sampleFile(data), "offending_line": v.BadLines[0], "kind": c.kind, "error": err.Error()})
 	case len(v.Keys) == 0:
 		if err == nil {
 			violate(pre+"no-key-accepted", fmt.Sprintf("%s succeeded (%d keys) on a file without any key", where, len(got)), replay)
 			return
 		}
 		r.Tab("lib_outcome", "rejected: no key")
-		r.SampleN("lib-nokey-"+c.fn, 1, map[string]any{"function": c.fn, "file": string(data), "error": err.Error()})
+		r.SampleN("lib-nokey-"+c.fn, 1, map[string]any{"function": c.fn, "file": sampleFile(data), "error": err.Error()})
 	default:
 		if err != nil {
 			violate(pre+"valid-file-rejected", fmt.Sprintf("%s failed with %q although every line is valid", where, err.Error()), replay)
@@ -359,8 +406,38 @@ func runLib(r *mon.Run, pool []*pkey, c libCase, name string, violate func(key, 
 			violate(pre+"keys-differ:"+d, fmt.Sprintf("%s returned %v, model %v", where, got, want), replay)
 			return
 		}
-		r.SampleN("lib-ok-"+c.fn, 1, map[string]any{"function": c.fn, "file": string(data), "keys_returned": len(got), "result": "equal to the model's list"})
+		r.SampleN("lib-ok-"+c.fn+sampleClass(c.long), 1, map[string]any{"function": c.fn, "file": sampleFile(data), "keys_returned": len(got), "result": "equal to the model's list"})
 	}
+}
+
+func sampleClass(long int) string {
+	if long >= 0 {
+		return "-long"
+	}
+	return ""
+}
+
+// sampleFile is the file as written into an evidence sample: over-long comment
+// lines are abridged to "#<first 24>...(N bytes)...<last 80>".
+func sampleFile(data []byte) string {
+	var sb strings.Builder
+	for _, l := range strings.SplitAfter(string(data), "\n") {
+		if len(l) > 400 {
+			fmt.Fprintf(&sb, "%s...(line of %d bytes)...%s", l[:24], len(strings.TrimRight(l, "\r\n")), l[len(l)-80:])
+		} else {
+			sb.WriteString(l)
+		}
+	}
+	return sb.String()
+}
+
+// showFile quotes a key file for a message; over-long files are abridged (the
+// replay data always holds the exact bytes).
+func showFile(data []byte) string {
+	if len(data) <= 3000 {
+		return fmt.Sprintf("%q", data)
+	}
+	return fmt.Sprintf("%q...[%d bytes in all, the exact file is in the replay data]...%q", data[:300], len(data), data[len(data)-500:])
 }
 
 // diffKeys classifies the difference between two key lists: "" | count | order | value.
